@@ -14,7 +14,7 @@ from ..engine import src
 
 PID = "C18"
 LEVEL = "exploration"
-RULE = ("UniformIce: ranges {(-1000,0), (-300,-100)} x n in {1.5, 1.78} x boundary indices {(1,1.8), (1,None), (None,None)} x dyadic x,y offsets x "
+RULE = ("UniformIce (each geometry with a fresh tracer and with one re-pointed tracer whose paths are read afterwards): ranges {(-1000,0), (-300,-100)} x n in {1.5, 1.78} x boundary indices {(1,1.8), (1,None), (None,None)} x dyadic x,y offsets x "
         "endpoint depths strictly inside x separations x max_reflections 0..3; LayeredIce: uniform|uniform and Antarctic|Antarctic split at "
         "{-100,-400,-777}, U(1.4)|U(1.6), U(1.4)|U(1.6)|U(1.5), U|A; endpoint pairs in same and different layers, both orders; "
         "distinct_nontrivial = distinct (configuration, geometry, solution) paths checked")
@@ -70,24 +70,44 @@ def _uniform_case(case):
     fails = []
     nontriv = []
     nev = 0
-    for z0, z1, rho, maxr in itertools.product(zs, zs, rhos, (0, 1, 2, 3)):
-        nev += 1
-        p0 = np.array([ox, oy, z0])
-        p1 = np.array([ox + 0.8 * rho, oy + 0.6 * rho, z1])
-        tag = "uniform n=%g range=%s indices=%s from %s to %s max_reflections=%d" % (n, case["range"], case["bidx"], p0.tolist(), p1.tolist(), maxr)
+    # Two ways of obtaining the solutions of every geometry: a new tracer each ("fresh"), and ONE tracer object that is
+    # re-pointed from geometry to geometry by attribute assignment, whose solution paths are collected first and only
+    # evaluated after the tracer has moved on ("reused") -- a path is defined by its own endpoints, not by its parent's.
+    geoms = list(itertools.product(zs, zs, rhos, (0, 1, 2, 3)))
+    shared = None
+    collected = []
+    for mode in ("fresh", "reused"):
+        for z0, z1, rho, maxr in geoms:
+            nev += 1
+            p0 = np.array([ox, oy, z0])
+            p1 = np.array([ox + 0.8 * rho, oy + 0.6 * rho, z1])
+            try:
+                if mode == "fresh":
+                    tr = UniformRayTracer(p0, p1, ice)
+                    tr.max_reflections = maxr
+                else:
+                    if shared is None:
+                        shared = UniformRayTracer(p0, p1, ice)
+                    tr = shared
+                    tr.from_point = p0
+                    tr.to_point = p1
+                    tr.max_reflections = maxr
+                sols = list(tr.solutions)
+            except Exception as e:
+                if src.exception_origin(e) != "library":
+                    raise
+                fails.append({"check": "exception", "what": "uniform n=%g range=%s indices=%s from %s to %s max_reflections=%d (%s tracer): %s"
+                                                            % (n, case["range"], case["bidx"], p0.tolist(), p1.tolist(), maxr, mode, src.short_tb(e)),
+                              "tags": {"group": "exception", "reflections": maxr, "mode": mode}})
+                continue
+            collected.append((mode, z0, z1, rho, maxr, p0, p1, sols))
+    for mode, z0, z1, rho, maxr, p0, p1, sols in collected:
+        tag = "uniform n=%g range=%s indices=%s from %s to %s max_reflections=%d (%s tracer)" % (
+            n, case["range"], case["bidx"], p0.tolist(), p1.tolist(), maxr, mode)
 
         def fail(check, what, **tags):
-            tags.update(group=check, reflections=maxr)
+            tags.update(group=check, reflections=maxr, mode=mode)
             fails.append({"check": check, "what": "%s: %s" % (tag, what), "tags": tags})
-        try:
-            tr = UniformRayTracer(p0, p1, ice)
-            tr.max_reflections = maxr
-            sols = tr.solutions
-        except Exception as e:
-            if src.exception_origin(e) != "library":
-                raise
-            fail("exception", src.short_tb(e))
-            continue
         expected = [(0, 0)]
         for r in range(1, maxr + 1):
             for first in (1, -1):
